@@ -1,14 +1,18 @@
 PROPS = {
     "C23": dict(engine="mthandle", race=False, level="exploration", design="C23",
-                technique="runtime monitor: crash observation in child processes + request-routing oracle over pending Conn.Invoke calls; hook fast path cross-validated by the real read loop",
+                technique="runtime monitor: crash observation in child processes + request-routing oracle over pending Conn.Invoke calls; "
+                          "hook fast path cross-validated by the real read loop",
                 text="Every file of the 14 101-entry handle_message corpus, ~2 600 generated service-message cases (results, errors, gzip, pongs, bad msg / bad salt, acks, "
-                     "salts, session, containers, nesting, multi-step sequences; request ids matching, off by +-4, unrelated), corpus entries wrapped into results/gzip/containers "
-                     "and ~14 000 mutants are handled by a fresh mtproto.Conn in child processes with 1..9 goroutines blocked in Conn.Invoke (and Conn.Ping): any panic / fatal "
-                     "error is attributed to the case; every Output.Decode and Invoke return must be justified by a payload that names that invocation's msg id (exact model for "
-                     "generated payloads, id-occurrence incl. independent gunzip otherwise). A sample (thorough: all eligible) is also encrypted by the reference model and fed "
-                     "through the real read loop of mtproto.New/Run; both paths must agree. Nested containers / gzip up to the depth the size limits allow.",
+                     "salts, session, containers, nesting, multi-step sequences; request ids matching, off by +-4, unrelated), 2 500 corpus entries wrapped into results/gzip/containers "
+                     "and 14 000 mutants (thorough: 10x generated, all wraps, 400 000 mutants) are each handled by a fresh mtproto.Conn in a child process with 1..6 goroutines "
+                     "blocked in Conn.Invoke (and Conn.Ping): a panic / fatal error is attributed to the case; every Output.Decode and every Invoke return must be justified by a "
+                     "payload that names that invocation's msg id (exact first-delivery-wins model for generated payloads, id-occurrence incl. independent gunzip otherwise). "
+                     "A sample (thorough: every eligible case, ~100 000) is also encrypted by the reference model and fed through the real read loop of mtproto.New/Run; both "
+                     "paths must agree. Nested containers / gzip: moderate depths under the standard child limits, and the depth one message may legally carry "
+                     "(10 000 containers = 240 KB; thorough also 43 690 containers = 1 MiB and 8 000 gzip layers) in a child confined to a 2 GiB address space.",
                 note="Inputs are sampled beyond the complete corpus. Trusted: harness/refmodel encryption, harness MessageIDSource + fake transport, stdlib gzip for the "
-                     "id-occurrence check. A lost rpc_error (never delivered) shows up as a settle watchdog = inconclusive, not as a violation. Unbounded gzip self-reference "
-                     "(a gzip quine wrapped in gzip_packed) is not constructed.",
+                     "id-occurrence check. A never-delivered rpc_error shows up as a settle watchdog = inconclusive, not as a violation (a lost result is a violation: "
+                     "Output.Decode is synchronous). The out-of-memory death of the deep-nesting case depends on the 2 GiB address-space limit of the child (the machine is shared; "
+                     "the unrestricted 1 MiB case needs 22.9 GB). A self-referencing gzip stream (gzip quine inside gzip_packed), which would recurse without bound, is not constructed.",
                 watchdog={"quick": 600, "thorough": 3 * 3600}),
 }
